@@ -108,6 +108,13 @@ class TwoArgError(Exception):
     """an exception class whose __init__ has its own signature: pickle cannot rebuild it from self.args"""
     def __init__(self, a, b): super().__init__(f"{a}-{b}")
 
+def _failure(msg, style=None):
+    """the injected failure in one of the shapes an exception can have: with a message, without one (a bare `raise E` / `assert x`:
+       str(e) == ''), with a message of several lines that also holds format characters"""
+    if style == "empty": return InjectedFailure()
+    if style == "multiline": return InjectedFailure(msg + "\n  second line {0} %s {x}\n")
+    return InjectedFailure(msg)
+
 class InjectedFailure(Exception):
     """raised by the fault-injecting components below"""
 
@@ -131,12 +138,12 @@ class StatefulLearner:
         self.h, self.n_pred, self.n_learn = 0, 0, 0
     @property
     def params(self):
-        if self.fail and self.fail[0] == "params": raise InjectedFailure(f"learner-params tag={self.tag}")
+        if self.fail and self.fail[0] == "params": raise _failure(f"learner-params tag={self.tag}", (self.fail + (None,))[2])
         p = {"family": "vf_stateful", "tag": self.tag, "fmt": self.fmt}
         if self.uni: p["note"] = UNI_NOTE
         return p
     def predict(self, context, actions):
-        if self.fail and self.fail[0] == "predict" and self.n_pred == self.fail[1]: raise InjectedFailure(f"learner-predict tag={self.tag}")
+        if self.fail and self.fail[0] == "predict" and self.n_pred == self.fail[1]: raise _failure(f"learner-predict tag={self.tag}", (self.fail + (None,))[2])
         self.n_pred += 1
         if self.info:
             from coba.context import CobaContext
@@ -152,7 +159,7 @@ class StatefulLearner:
         if self.fmt == "a":  return actions[i]
         return actions[i], 1 / n
     def learn(self, context, action, reward, probability, **kw):
-        if self.fail and self.fail[0] == "learn" and self.n_learn == self.fail[1]: raise InjectedFailure(f"learner-learn tag={self.tag}")
+        if self.fail and self.fail[0] == "learn" and self.n_learn == self.fail[1]: raise _failure(f"learner-learn tag={self.tag}", (self.fail + (None,))[2])
         self.n_learn += 1
         self.h = _h(self.h, repr(context), repr(action), round(float(reward), 6), probability, sorted(kw.items()))
 
@@ -179,11 +186,12 @@ UNI_NOTE = "na\u00efve \u03b5-greedy \u2014 \u5b66\u7fd2 \U0001f600"
 class RecEvaluator:
     """Custom evaluator: yields rows that expose the learner's state trajectory, the experiment seed seen inside the
        worker and the number of interactions; logs 'EVAL env_tag lrn_tag val_tag pid' to an O_APPEND side file."""
-    def __init__(self, tag, side, nrows=4, fail_after=None, fail_params=False):
+    def __init__(self, tag, side, nrows=4, fail_after=None, fail_params=False, fail_style=None):
+        self.fail_style = fail_style
         self.tag, self.side, self.nrows, self.fail_after, self.fail_params = tag, side, nrows, fail_after, fail_params
     @property
     def params(self):
-        if self.fail_params: raise InjectedFailure(f"evaluator-params tag={self.tag}")
+        if self.fail_params: raise _failure(f"evaluator-params tag={self.tag}", getattr(self, "fail_style", None))
         return {"vf_eval": self.tag, "nrows": self.nrows}
     def evaluate(self, environment, learner):
         from coba.context import CobaContext
@@ -196,7 +204,7 @@ class RecEvaluator:
         from coba.environments import Unbatch
         for i, inter in enumerate(Unbatch().filter(environment.read())):
             if i >= self.nrows: break
-            if self.fail_after is not None and i == self.fail_after: raise InjectedFailure(f"evaluator-evaluate tag={self.tag}")
+            if self.fail_after is not None and i == self.fail_after: raise _failure(f"evaluator-evaluate tag={self.tag}", getattr(self, "fail_style", None))
             a, p, kw = sl.predict(inter["context"], inter["actions"])
             r = inter["rewards"](a) if callable(inter["rewards"]) else inter["rewards"][inter["actions"].index(a)]
             sl.learn(inter["context"], a, r, p, **kw)
@@ -241,15 +249,15 @@ class LoggingRejection(LoggingCB):
 
 class FailingEnv:
     """environment wrapper raising at read item k or in params"""
-    def __init__(self, env, where, k=0):
-        self.env, self.where, self.k = env, where, k
+    def __init__(self, env, where, k=0, style=None):
+        self.env, self.where, self.k, self.style = env, where, k, style
     @property
     def params(self):
-        if self.where == "params": raise InjectedFailure("environment-params")
+        if self.where == "params": raise _failure("environment-params", getattr(self, "style", None))
         return self.env.params
     def read(self):
         for i, x in enumerate(self.env.read()):
-            if self.where == "read" and i == self.k: raise InjectedFailure("environment-read")
+            if self.where == "read" and i == self.k: raise _failure("environment-read", getattr(self, "style", None))
             yield x
 
 class SleepyFilter:
